@@ -71,6 +71,12 @@ impl Shard {
     /// Record a violation: alarmed if it belongs to this shard's property, otherwise counted as foreign.
     pub fn violation(&mut self, v: Violation) {
         if v.prop == self.prop {
+            // keep at most two witnesses per signature so that one (possibly known) finding cannot
+            // crowd out different ones
+            if self.violations.iter().filter(|x| x.signature == v.signature).count() >= 2 {
+                *self.counters.entry(format!("more_witnesses_of_{}", v.signature)).or_insert(0) += 1;
+                return;
+            }
             if self.violations.len() < 20 {
                 self.violations.push(v);
             } else {
